@@ -244,6 +244,61 @@ theorem Db.categoryUnitValid_of_not_symbol {db : Db} {l : Sym} (hl : db.unitBySy
     rw [Db.getInfo_of_not_symbol hl]
     simp [Db.infoUnknown, Db.infoLegacy]
 
+/-! ### the composing-mapping forms of `ObtainQuantity` -/
+
+/-- `CheckQuantityTypeUnit` (no legacy fallback, no unknown fallback) rejects a string that is no
+symbol -/
+theorem Db.checkQuantityTypeUnit_of_not_symbol {db : Db} {l : Sym} (hl : db.unitBySym l = none)
+    (qt : Sym) : db.checkQuantityTypeUnit qt l = .error .units := by
+  unfold Db.checkQuantityTypeUnit
+  rw [Db.getInfo_of_not_symbol hl]
+  simp only [Db.infoUnknown, Db.infoLegacy, Bool.false_and, Bool.false_eq_true, ↓reduceIte, ite_self]
+
+/-- `GetInfo` fails with `InvalidUnitError`/`InvalidQuantityTypeError` only -/
+theorem Db.getInfo_error_units {db : Db} {qt u : Sym} {fu fl : Bool} {e : ErrKind}
+    (h : db.getInfo qt u fu fl = .error e) : e = .units := by
+  unfold Db.getInfo at h
+  split at h
+  · cases h
+  · split at h
+    · cases h; rfl
+    · split at h
+      · cases h
+      · split at h
+        · cases h
+        · split at h
+          · cases h
+          · cases h; rfl
+
+theorem Db.checkQuantityTypeUnit_error_units {db : Db} {qt u : Sym} {e : ErrKind}
+    (h : db.checkQuantityTypeUnit qt u = .error e) : e = .units := by
+  unfold Db.checkQuantityTypeUnit at h
+  split at h
+  · cases h
+  · next e' he => cases h; exact Db.getInfo_error_units he
+
+/-- the validation loop over a mapping fails (with a units error) as soon as one cell's unit is no
+symbol -/
+theorem Db.checkCells_of_not_symbol {db : Db} :
+    ∀ cells : List MapCell, (∃ c ∈ cells, db.unitBySym c.unit = none) →
+      db.checkCells cells = .error .units
+  | [], h => by obtain ⟨c, hc, _⟩ := h; cases hc
+  | c :: cs, h => by
+    unfold Db.checkCells
+    cases hcat : db.catByName c.cat with
+    | none => rfl
+    | some ci =>
+      simp only
+      cases hq : db.checkQuantityTypeUnit ci.qtype c.unit with
+      | error e => rw [Db.checkQuantityTypeUnit_error_units hq]
+      | ok _ =>
+        simp only
+        apply Db.checkCells_of_not_symbol cs
+        obtain ⟨d, hd, hn⟩ := h
+        rcases List.mem_cons.mp hd with rfl | hd
+        · rw [Db.checkQuantityTypeUnit_of_not_symbol hn] at hq; cases hq
+        · exact ⟨d, hd, hn⟩
+
 /-! ### from the table predicates to `Db.Alias` -/
 
 theorem mem_deriveFor_snd {L : List (Sym × Sym)} {u : Sym} {p : Sym × Sym} (h : p ∈ deriveFor L u) :
